@@ -251,6 +251,48 @@ def main() -> int:
             spec_failures.append({"suite": "S3-core-script-vs-specification", "sql": sql, "impl_pairs": got, "spec_script_pairs": exp,
                                   "spec": "the end-to-end pairs of a script are the pairs (unwritten source column, unread target column) "
                                           "connected by one or more of the statements' column flows (theorems c04_script_exact_on_core, c04_script_exact_on_core_with_unions)"})
+    # S3x: the same for scripts whose statements have EXPRESSION items (c04_script_exact_on_core_with_expressions, guard core_ok_x2)
+    def with_exprs(ss):
+        out2 = []
+        for st in ss:
+            q = st[-1]
+            if st[0] not in ("insert", "ctas", "view") or q[0] != "select":
+                return None
+            names = [rr[2] or rr[1][1] for rr in q[2]]
+            items = []
+            for it in q[1]:
+                if it[0] == "star":
+                    items.append(it)
+                    continue
+                e1 = it[1]
+                other = astgen.col(r.choice(names), r.choice(["x", "y", "z"]))
+                e2 = r.choice([astgen.bin_(e1, other), astgen.fun(e1, astgen.LIT), astgen.cast(e1), astgen.case(other, e1, astgen.LIT),
+                               astgen.win(e1, other, other), e1])
+                if e2 is not e1 and e1[1] is None:
+                    e2 = e1            # an unqualified reference stays alone (resolved_x wants qualified ones inside expressions over 2 tables)
+                items.append(astgen.iexpr(e2, it[2] or (r.choice(["x", "y", "z", "w"]) if e2 is not e1 else None)))
+            out2.append(st[:-1] + (astgen.select(items, q[2], q[3], q[4]),))
+        return out2
+    csx = [y for y in (with_exprs(ss) for ss in core_scripts(r, 120 if quick else 2000)) if y]
+    exprs_x = ["(if forallb core_ok_x2 [%s] then \"in:\" else \"out:\") ++ join \";\" (spec_script_pairs \"\" [%s])"
+               % (("; ".join(astgen.g_stmt(x) for x in ss),) * 2) for ss in csx]
+    spec_x = coq_eval("From SV Require Import Ast.Spec Tree.LemmaB Tree.ScriptExact Tree.RenderExpr Tree.LemmaBExpr Tree.ScriptExactExpr.\nOpen Scope string_scope.", exprs_x, shard=100)
+    impl_x = t2tie.summaries([{"sql": "\n".join(astgen.to_sql(x) for x in ss), "dialect": "ansi", "metadata": None, "config": {}} for ss in csx])
+    dist["s3x_scripts_with_expressions"] = {"scripts": len(csx), "inside_guard": 0, "nonempty": 0}
+    for ss, sp, im in zip(csx, spec_x, impl_x):
+        ck.count()
+        if not sp.startswith("in:"):
+            continue
+        sql = "\n".join(astgen.to_sql(x) for x in ss)
+        dist["s3x_scripts_with_expressions"]["inside_guard"] += 1
+        exp = sp[3:]
+        got = im.split("#", 1)[1] if "#" in im else im
+        if exp:
+            dist["s3x_scripts_with_expressions"]["nonempty"] += 1
+            ck.nontriv(("core-script-x", sql))
+        if got != exp:
+            spec_failures.append({"suite": "S3x-script-with-expressions-vs-specification", "sql": sql, "impl_pairs": got, "spec_script_pairs": exp,
+                                  "spec": "theorem c04_script_exact_on_core_with_expressions: the pairs connected by one or more statement flows"})
     ok = [x for x in res if "summary" in x and x["summary"].split("#", 1)[1]]
     if ok:
         ck.sample({"script": ok[0]["rec"]["sql"], "pairs": ok[0]["summary"].split("#", 1)[1][:300]})
